@@ -36,12 +36,9 @@ impl SwiftField for Field25NoOption {
     }
 
     fn to_swift_string(&self) -> String {
-        // Add leading slash for MT format if not already present
-        if self.authorisation.starts_with('/') {
-            format!(":25:{}", self.authorisation)
-        } else {
-            format!(":25:/{}", self.authorisation)
-        }
+        // parse() strips exactly one leading slash, so exactly one is written back
+        // (a value that itself begins with '/' keeps it: "//X" <-> "/X")
+        format!(":25:/{}", self.authorisation)
     }
 }
 
@@ -94,12 +91,8 @@ impl SwiftField for Field25A {
     }
 
     fn to_swift_string(&self) -> String {
-        // Ensure account starts with '/' for SWIFT format
-        if self.account.starts_with('/') {
-            format!(":25A:{}", self.account)
-        } else {
-            format!(":25A:/{}", self.account)
-        }
+        // parse() strips exactly one leading slash, so exactly one is written back
+        format!(":25A:/{}", self.account)
     }
 }
 
